@@ -273,11 +273,16 @@ func mutateXML(r *rng.R, x string) (string, string) {
 		}
 	case 7:
 		re := regexp.MustCompile(`w:(val|w|h|type|id|orient|top|left|fill|color|sz)="[^"]*"`)
+		if r.Bool() {
+			re = regexp.MustCompile(`\b(?:w|r|wp|a|pic|m):[A-Za-z]+="[^"]*"`) // any attribute of the document's vocabularies
+		}
 		locs := re.FindAllStringIndex(x, -1)
 		if len(locs) > 0 {
 			l := locs[r.Intn(len(locs))]
 			name := x[l[0] : strings.Index(x[l[0]:], "=")+l[0]]
-			v := []string{"", "abc", "-1", "99999999999999999999", "0", "1e9", " ", " "}[r.Intn(8)]
+			v := []string{"", "abc", "-1", "99999999999999999999", "0", "1e9", " ", "\t", "0", "0.5", "-0", "00", "+1", "NaN", "Inf", "0x10",
+				// names and ids are free text: brackets, stars, backslashes, percent signs, braces mean nothing in XML
+				"Ledger(2024", "a)b", "x**", "[a-", "c:\\d", "100%s", "{{x}}", "../../x", "a b", "$1", "名前", "a|b?", "^$"}[r.Intn(29)]
 			if r.Chance(1, 4) {
 				return x[:l[0]] + x[l[1]:], "strip-attribute"
 			}
@@ -473,6 +478,8 @@ func postOpen(res *core.Result, d *document.Document, r *rng.R, workDir string) 
 	}
 	var tables []*document.Table
 	step("GetParagraphs", func() { d.Body.GetParagraphs() })
+	// the statistics are computed from the document as it was opened (and once more after the edits below)
+	step("UpdateStatistics", func() { d.UpdateStatistics(); d.GetDocumentProperties() })
 	step("GetTables", func() { tables = d.Body.GetTables() })
 	step("GetPageSettings", func() { d.GetPageSettings() })
 	step("ListHeadings", func() { d.ListHeadings(); d.GetHeadingCount() })
